@@ -160,6 +160,34 @@ Fixpoint model_mismatches (i : nat) (cs : list case) : list (nat * nat) :=
       end
   end.
 
+(* content monitor: the first step at which the implementation answers differently from the model
+   although it answered like the model on every earlier step (in particular: refused exactly the
+   writes the model refuses).  Kind 1 = the step is an UNMETERED read (a versioned read, or a
+   read while no gas store is installed: after a block commit / reopen / Fresh None): the content
+   of the store is not what the writes that returned success determine (a refused write landed,
+   or an accepted one was lost) — outside the known region of C09.gas_exhausted, which is about
+   metered reads and refusals while the counter is at its limit.  Kind 0 = anything else. *)
+Fixpoint content_diff (s : state) (ops : list op) (obs : list out) (i : nat) : option (nat * nat) :=
+  match ops, obs with
+  | o :: ops', b :: obs' =>
+      let '(r, s') := step s o in
+      if out_eqb r b then content_diff s' ops' obs' (S i)
+      else Some (i, match o, gas s with
+                    | GetVersioned _ _, _ | Get _, None | Exists_ _, None => 1%nat
+                    | _, _ => 0%nat
+                    end)
+  | _, _ => None
+  end.
+Fixpoint content_violations (i : nat) (cs : list case) : list (nat * nat * nat) :=
+  match cs with
+  | [] => []
+  | c :: rest =>
+      match content_diff (init (c_rot c)) (c_ops c) (c_obs c) 0 with
+      | Some (j, kd) => (i, j, kd) :: content_violations (S i) rest
+      | None => content_violations (S i) rest
+      end
+  end.
+
 (* the property monitor: the implementation must answer like the spec.  A disagreement is
    classified by what happened before it in the run: 1 = the delete marker was written as a
    value (known trigger C09.tombstone_alias), 2 = the block gas counter had reached its limit
